@@ -686,6 +686,28 @@ def run(world, rep, tier, only=None):
                    "ext2fs_extent_header_verify() dominates ext2fs_extent_block_csum_verify() (line %d)" % v.line)
     rep.floor("C06.m checksum verifications of extent blocks in extent.c", n_m6, 1)
 
+    # ------------------------------------------------------------------ C06.n the handle's buffer receives no more inline data than it holds
+    # An ext2_file_t has a buffer of three blocks; ext2fs_inline_data_get() copies the whole inline area into the buffer
+    # it is given, and with ea_inode the system.data value may be 64k.  In fileio.c every such copy into file->buf is
+    # preceded by a comparison of the size reported by ext2fs_inline_data_size() with the block size.
+    fprog = world.program("debugfs", plain=True)
+    n_n6 = 0
+    for fn in fprog.fns_in_file("lib/ext2fs/fileio.c"):
+        for c in calls_to(fn, "ext2fs_inline_data_get"):
+            if "buf" not in T.field_names(arg(c, 3) or {}):
+                continue
+            n_n6 += 1
+            sized = calls_to(fn, "ext2fs_inline_data_size")
+            outs = {T.path(T.strip(arg(q, 2)).get("e")) for q in sized if isinstance(T.strip(arg(q, 2)), dict) and T.strip(arg(q, 2)).get("k") == "u"} | \
+                {T.path(arg(q, 2)) for q in sized}
+            outs = {o_.lstrip("*") for o_ in outs if o_}
+            cmp_ = [fn.block_end(b) for b in fn.blocks if fn.literal(b) and "blocksize" in T.field_names(fn.literal(b)[0]) and
+                    ({v_.lstrip("*") for v_ in T.vars_in(fn.literal(b)[0])} & outs)]
+            rep.ob("C06.n", site(fn, "inline area measured against the handle's buffer before it is copied#%d" % n_n6),
+                   bool(cmp_) and fn.dominated_by(c, cmp_),
+                   "a comparison of the size from ext2fs_inline_data_size() with the block size dominates `%s`" % c.text()[:40])
+    rep.floor("C06.n copies of the inline area into file->buf", n_n6, 1)
+
     # C06.b cursor lifetime in the rbtree bitmap — shared with C16.b
     try:
         from rules import C16
